@@ -4,4 +4,6 @@ from . import cfgmachine
 
 
 def run(tier, seed):
-    return cfgmachine.run_machine("C01", ["C01_AllValid"], ["C01_Readback"], tier, seed)
+    out = cfgmachine.run_machine("C01", ["C01_AllValid"], ["C01_Readback"], tier, seed)
+    # second instance: the textual / numeric field classes inside a configuration
+    return cfgmachine.merge(out, cfgmachine.run_machine("C01", ["C01_AllValid"], ["C01_Readback"], tier, seed + 7, schema="SchemaB"))
